@@ -352,9 +352,11 @@ class FileBufferedCollection(BufferedCollection):
                 collection._flush(force=force)
             except (OSError, MetadataError) as err:
                 issues[collection._filename] = err
-        if not issues:
-            cls._buffered_collections = remaining_collections
-        else:
+        # Collections that stay buffered must stay registered even if some
+        # flushes failed, otherwise they are never flushed (or removed from the
+        # buffer) when their contexts exit.
+        cls._buffered_collections = remaining_collections
+        if issues:
             raise BufferedError(issues)
 
     @classmethod
